@@ -3,6 +3,8 @@
 
   seeded.py verify <outdir> <n> <name>   confirm in a scratch worktree that patch<n> compiles, passes the suite and makes
                                          demo<n> fail while clean HEAD passes it; then store it as /verif/seeded/<name>/
+  seeded.py benign <outdir> <name>       confirm that benign.diff compiles, passes the suite and the agent's demos; store it as
+                                         /verif/seeded/<name>/ with "benign": true (every check must stay silent on it)
   seeded.py run <name> <check-id>...     run checks against a scratch worktree with the patch applied (WALLEYE_REPO),
                                          record which ones report a VIOLATION in meta.json
 """
@@ -111,6 +113,34 @@ def verify(outdir, n, name):
     return 0 if confirmed else 1
 
 
+def benign(outdir, name):
+    """a behaviour-changing but property-preserving change: must compile, pass the suite, and keep the agent's own demos passing"""
+    patch = os.path.join(outdir, "benign.diff")
+    meta_in = json.load(open(os.path.join(outdir, "benign.json")))
+    log = []
+    d = worktree("mut", patch)
+    (res, passed, failed), _ = suite(d)
+    log.append("HEAD+benign: suite %s %d passed %d failed" % (res, passed, failed))
+    ok = res == "ok" and passed == 107 and failed == 0
+    for n in (1, 2):
+        if os.path.exists(os.path.join(outdir, "patch%d.diff" % n)):
+            okd, msg = run_demo(d, outdir, n)
+            log.append("HEAD+benign: demo%d passes=%s (%s)" % (n, okd, msg))
+            ok = ok and okd is True
+    drop("mut")
+    print("\n".join(log))
+    print("CONFIRMED" if ok else "NOT CONFIRMED")
+    if ok:
+        dst = os.path.join(VERIF, "seeded", name)
+        os.makedirs(dst, exist_ok=True)
+        shutil.copy(patch, os.path.join(dst, "patch.diff"))
+        meta = {"property": meta_in.get("property"), "benign": True, "summary": meta_in.get("summary"),
+                "why_property_holds": meta_in.get("why_property_holds"), "files_touched": meta_in.get("files_touched"),
+                "confirmed": log, "repo_head": sh("git -C /repo rev-parse --short HEAD")[1].strip(), "detected_by": {}}
+        json.dump(meta, open(os.path.join(dst, "meta.json"), "w"), indent=1)
+    return 0 if ok else 1
+
+
 def run(name, checks):
     dst = os.path.join(VERIF, "seeded", name)
     meta = json.load(open(os.path.join(dst, "meta.json")))
@@ -139,5 +169,7 @@ def run(name, checks):
 if __name__ == "__main__":
     if sys.argv[1] == "verify":
         sys.exit(verify(sys.argv[2], int(sys.argv[3]), sys.argv[4]))
+    if sys.argv[1] == "benign":
+        sys.exit(benign(sys.argv[2], sys.argv[3]))
     if sys.argv[1] == "run":
         run(sys.argv[2], sys.argv[3:])
